@@ -110,7 +110,7 @@ def r05_5(ctx):
         if "self.sink.append_doctype_to_document" not in names:
             continue
         n += 1
-        in_initial = any(val and "self.mode.get() == Initial" in g for g, val in pc["guards"].items())
+        in_initial = any(val and "self.mode.get() matches Initial" in g for g, val in pc["guards"].items())
         leaves = any(a == "set self.mode" and args and args[0] != "Initial" for a, args in pc["actions"])
         ctx.ob("R05.5", "doctype-once/html", in_initial and leaves,
                "appended only in mode Initial, and the path leaves Initial" if in_initial and leaves else "doctype append is not confined to a mode that is left on the same path")
